@@ -462,11 +462,13 @@ def build_prim(spec):
         reg = R.PolygonalRegion(polygon=geo[0] if len(geo) == 1 else sg.MultiPolygon(geo), z=z)
         return reg, M.PolygonS(polys, z), dict(k=2, post=0, branches=None)
     if k == "circle":
-        reg = R.CircularRegion(Vector(*spec["c"]), spec["r"])
-        return reg, M.DiscS(spec["c"], spec["r"]), dict(k=2, post=0, branches=1)
+        res = spec.get("res", 32)
+        reg = R.CircularRegion(Vector(*spec["c"]), spec["r"], resolution=res)
+        return reg, M.DiscS(spec["c"], spec["r"], resolution=res), dict(k=2, post=0, branches=1)
     if k == "sector":
-        reg = R.SectorRegion(Vector(*spec["c"]), spec["r"], spec["heading"], spec["angle"])
-        return reg, M.SectorS(spec["c"], spec["r"], spec["heading"], spec["angle"]), dict(k=2, post=0, branches=1)
+        res = spec.get("res", 32)
+        reg = R.SectorRegion(Vector(*spec["c"]), spec["r"], spec["heading"], spec["angle"], resolution=res)
+        return reg, M.SectorS(spec["c"], spec["r"], spec["heading"], spec["angle"], resolution=res), dict(k=2, post=0, branches=1)
     if k == "rect":
         reg = R.RectangularRegion(Vector(*spec["c"]), spec["heading"], spec["w"], spec["l"])
         return reg, M.RectS(spec["c"], spec["heading"], spec["w"], spec["l"]), dict(k=2, post=0, branches=1)
@@ -623,10 +625,12 @@ def analyse(leaves, N):
             e["wr"] += w
     Cs, Hs, LO, HI, INTERIOR, ACC = [], [], [], [], [], []
     DE, DK, DGOOD, DW, DF, DG = [], [], [], [], [], []
+    group_cap = {}
     stats = dict(groups=len(groups), entries=0, accepted=0, interior=0, boundary=0, rejected_boundary=0, no_neighbour=0)
     total_w = 0.0
     for gi, ((key, k), g) in enumerate(groups.items()):
         total_w += sum(e["wc"] for e in g.values())
+        group_cap[gi] = None
         if k == 0:
             # no continuous input at all (cut before the first draw / discrete outcome)
             for e in g.values():
@@ -673,6 +677,16 @@ def analyse(leaves, N):
         f_hi = 1.0 / (1.0 - r_hi) if r_hi < 1 else np.inf
         if r_hi > 0:
             stats["retry_groups"] = stats.get("retry_groups", 0) + 1
+        group_cap[gi] = wg if float(Wr.sum()) > 0 else None
+        # density test: a straight cut through a box leaves at least half of it on the side of
+        # its centre (the retry boundaries are triangle edges; 3 boxes of slack for the corners)
+        cutr = float(np.where(boundary & (Wr > 0), Wc, 0.0).sum())
+        cuta = float(np.where(boundary & (Wa > 0), Wc, 0.0).sum())
+        m3 = 3.0 * wg / N**k
+        r2_lo = max(0.0, (float(Wr[~boundary].sum()) + 0.5 * cutr - m3) / wg)
+        r2_hi = (float(Wr[~boundary].sum()) + cutr + 0.5 * cuta + m3) / wg
+        f2_lo = 1.0 / (1.0 - r2_lo)
+        f2_hi = 1.0 / (1.0 - r2_hi) if r2_hi < 1 else np.inf
         # half-extent of the image of each box: sum over the inputs of |secant slope| * half step
         H = np.zeros(shape + (3,))
         unknown = np.zeros(shape, bool)
@@ -738,7 +752,7 @@ def analyse(leaves, N):
         DK.append(np.full(len(idx[0]), k))
         DGOOD.append(good[idx])
         DW.append(Wa[idx])
-        DF.append(np.tile([f_lo, f_hi], (len(idx[0]), 1)))
+        DF.append(np.tile([f2_lo, f2_hi] if float(Wr.sum()) > 0 else [1.0, 1.0], (len(idx[0]), 1)))
         DG.append(np.full(len(idx[0]), gi))
         Cs.append(P[idx])
         Hs.append(H[idx])
@@ -800,6 +814,7 @@ def analyse(leaves, N):
         wacc=np.concatenate(DW),
         f=np.concatenate(DF),
         group=np.concatenate(DG),
+        group_cap=group_cap,
         total_w=total_w,
     )
     return out, stats
@@ -829,6 +844,30 @@ def _aligned_edges(obs, lo, hi, G, N):
     return edges
 
 
+def _accumulate_obs(grid, obs):
+    """cell sums of the observed items.  Branches with a retry loop are accumulated
+    separately: whatever the uncertainty of their renormalisation, the mass such a branch puts
+    into any cell (and in total) cannot exceed the branch probability."""
+    caps = obs["group_cap"]
+    gid = obs["group"]
+    capped = np.isin(gid, [g for g, c in caps.items() if c is not None])
+    olo, ohi, outside = M.accumulate(grid, obs["C"][~capped], obs["H"][~capped], obs["m_lo"][~capped], obs["m_hi"][~capped])
+    A_lo, A_hi = float(obs["m_lo"][~capped].sum()), float(obs["m_hi"][~capped].sum())
+    for g, cap in caps.items():
+        if cap is None:
+            continue
+        sel = gid == g
+        if not sel.any():
+            continue
+        l, h, o = M.accumulate(grid, obs["C"][sel], obs["H"][sel], obs["m_lo"][sel], obs["m_hi"][sel])
+        olo += np.minimum(l, cap)
+        ohi += np.minimum(h, cap)
+        outside += o
+        A_lo += min(float(obs["m_lo"][sel].sum()), cap)
+        A_hi += min(float(obs["m_hi"][sel].sum()), cap)
+    return olo, ohi, outside, A_lo, A_hi
+
+
 def _judge(shape, obs, G, q, N):
     """Interval test of uniformity.
 
@@ -851,8 +890,7 @@ def _judge(shape, obs, G, q, N):
     grid = M.Grid(_aligned_edges(obs, lo, hi, G, N))
     quad = M.Quadrature(shape, grid, q)
     elo, ehi = quad.cells()
-    olo, ohi, outside = M.accumulate(grid, obs["C"], obs["H"], obs["m_lo"], obs["m_hi"])
-    A_lo, A_hi = float(obs["m_lo"].sum()), float(obs["m_hi"].sum())
+    olo, ohi, outside, A_lo, A_hi = _accumulate_obs(grid, obs)
     res = dict(cells=int(grid.size), outside=outside, A_lo=A_lo, A_hi=A_hi, mu_lo=quad.mu_lo, mu_hi=quad.mu_hi, bad=[])
     if A_lo <= 0 or quad.mu_lo <= 0:
         res["judged"] = 0
@@ -1010,7 +1048,7 @@ def _support(shape, obs, Gs, q, N):
     grid = M.Grid(_aligned_edges(obs, lo, hi, Gs, N))
     quad = M.Quadrature(shape, grid, q)
     elo, _ = quad.cells()
-    _, ohi, _ = M.accumulate(grid, obs["C"], obs["H"], obs["m_lo"], obs["m_hi"])
+    _, ohi, _, _, _ = _accumulate_obs(grid, obs)
     need = elo > 0
     empty = np.nonzero(need & (ohi <= 0))[0]
     ex = []
@@ -1042,8 +1080,8 @@ def _own_contains(region, P, kinds):
 
 
 TIER = {
-    "quick": dict(N={1: 96, 2: 24, 3: 12}, G={1: 4, 2: 4, 3: 3}, q={1: 8, 2: 48, 3: 16}, Gs={1: 16, 2: 8, 3: 4}, qs={1: 4, 2: 12, 3: 8}, max_exec=400_000),
-    "thorough": dict(N={1: 256, 2: 64, 3: 24}, G={1: 8, 2: 8, 3: 4}, q={1: 8, 2: 32, 3: 14}, Gs={1: 32, 2: 16, 3: 8}, qs={1: 4, 2: 8, 3: 6}, max_exec=3_000_000),
+    "quick": dict(N={1: 96, 2: 24, 3: 16}, N_surface=12, N_voxel=8, G={1: 4, 2: 4, 3: 4}, q={1: 8, 2: 48, 3: 12}, Gs={1: 16, 2: 8, 3: 4}, qs={1: 4, 2: 12, 3: 8}, max_exec=400_000),
+    "thorough": dict(N={1: 256, 2: 64, 3: 24}, N_surface=32, N_voxel=16, G={1: 8, 2: 8, 3: 4}, q={1: 8, 2: 32, 3: 14}, Gs={1: 32, 2: 16, 3: 8}, qs={1: 4, 2: 8, 3: 6}, max_exec=3_000_000),
 }
 
 
@@ -1079,6 +1117,13 @@ def run_continuous(item):
         viol(f"empty-result:{sig}", "the library returned the empty region for a composition of positive measure")
         return out
     N, G, q = par["N"][dim], par["G"][dim], par["q"][dim]
+    kinds = {type(K).__name__ for K in shape.carriers()}
+    if "Surface" in kinds:
+        N = par["N_surface"]
+    if any(getattr(pr, "kind", "") == "voxel" for pr in _all_shapes(shape)):
+        N = par["N_voxel"]
+    while N % G:
+        G -= 1
     try:
         leaves, capped = explore_lattice(region, N, info["k"], info["post"], par["max_exec"])
     except OutOfFragment as e:
@@ -1167,6 +1212,13 @@ def run_continuous(item):
     return out
 
 
+def _all_shapes(shape):
+    out = [shape]
+    for o in getattr(shape, "operands", ()):
+        out += _all_shapes(o)
+    return out
+
+
 def _spec_sig(spec):
     if spec["k"] in ("union", "intersect", "difference"):
         return f"{spec['k']}({_spec_sig(spec['a'])},{_spec_sig(spec['b'])})"
@@ -1204,7 +1256,13 @@ def build_discrete(spec):
             x, y = int(round(fx)), int(round(fy))
             if not (0 <= x < g.shape[1] and 0 <= y < g.shape[0]):
                 return False
-            return bool(g[y, x] == 0)
+            if g[y, x] != 0:
+                return False
+            # a free cell: the region's sampler can only produce the grid point itself.  Points of
+            # a free cell other than its grid point are members by the documented containment but
+            # not producible: ambiguous, the case list must not depend on them
+            on_grid = abs(fx - x) < 1e-9 and abs(fy - y) < 1e-9 and abs(p[2]) < 1e-9
+            return True if on_grid else None
 
         return reg, pts, member, "GridRegion"
     if k in ("union", "intersect", "difference"):
@@ -1406,16 +1464,24 @@ PRIMS = {
         dict(k="path", chains=[[(-1, 1.2, 0.2), (0.5, 0.4, 0.8), (1.7, 1.6, 0.1), (3.2, 0.9, 0.7)]]),
     ],
     "voxel": [
-        dict(k="voxel", n=(4, 4, 2), cut=(2, 2), pitch=0.7, origin=(0.1, 0.0, 0.2)),
+        dict(k="voxel", n=(3, 3, 2), cut=(2, 1), pitch=0.8, origin=(0.14, 0.03, 0.22)),
         dict(k="voxel", n=(3, 3, 3), cut=(2, 1), pitch=0.8, origin=(0.0, 0.2, -0.3)),
         dict(k="voxel", n=(5, 3, 2), cut=(3, 2), pitch=0.6, origin=(-0.2, 0.1, 0.1)),
     ],
     "view": [
-        dict(k="view", dist=2.2, angles=(2.0, 1.6), pos=(0.9, -0.2, 0.4), ypr=(0.2, 0.1, 0.0)),
+        dict(k="view", dist=2.2, angles=(2.6, 2.0), pos=(0.95, -0.27, 0.4), ypr=(0.2, 0.1, 0.0)),
         dict(k="view", dist=2.0, angles=(1.4, math.pi), pos=(1.0, 0.0, 0.5), ypr=(0.0, 0.0, 0.0)),
         dict(k="view", dist=1.8, angles=(math.tau, math.pi), pos=(1.0, 1.0, 0.5), ypr=(0.0, 0.0, 0.0)),
     ],
 }
+
+
+def _res(spec, res):
+    """coarser polygonal approximation of a disc / sector inside compositions (fewer sliver
+    triangles in the library's triangulation; the oracle's band follows)."""
+    s = dict(spec)
+    s["res"] = res
+    return s
 
 
 def _at_z(spec, z):
@@ -1439,13 +1505,19 @@ def continuous_cases(tier):
     cases.append(("sector@z0.7", _at_z(P["sector"], 0.7)))
     cases.append(("rect@z0.7", _at_z(P["rect"], 0.7)))
     zin = 0.3  # a height inside the solids
+    if tier == "quick":
+        P = dict(P)
+        P["circle"], P["sector"] = _res(P["circle"], 6), _res(P["sector"], 6)
+        circ1 = _res(PRIMS["circle"][1], 6)
+    else:
+        circ1 = PRIMS["circle"][1]
     comps = [
         ("box&spheroid", _c("intersect", P["box"], P["spheroid"])),
         ("box|lmesh", _c("union", P["box"], P["lmesh"])),
-        ("box-spheroid", _c("difference", P["box"], PRIMS["spheroid"][1])),
+        ("box-spheroid", _c("difference", P["box"], dict(k="spheroid", pos=(2.0, 2.1, 1.3), dims=(2.4, 2.4, 2.4), ypr=(0, 0, 0)))),
         ("circle&rect", _c("intersect", P["circle"], P["rect"])),
         ("rect|sector", _c("union", P["rect"], P["sector"])),
-        ("polygon-circle", _c("difference", P["polygon"], PRIMS["circle"][1])),
+        ("polygon-circle", _c("difference", P["polygon"], circ1)),
         ("lmesh&circle@z", _c("intersect", P["lmesh"], _at_z(P["circle"], zin))),
         ("box&polyline", _c("intersect", PRIMS["box"][1], P["polyline"])),
         ("spheroid&path", _c("intersect", P["spheroid"], P["path"])),
@@ -1461,7 +1533,7 @@ def continuous_cases(tier):
         # planar regions at a common height z != 0
         ("circle&rect@z0.7", _c("intersect", _at_z(P["circle"], 0.7), _at_z(P["rect"], 0.7))),
         ("rect|sector@z0.7", _c("union", _at_z(P["rect"], 0.7), _at_z(P["sector"], 0.7))),
-        ("polygon-circle@z0.7", _c("difference", _at_z(P["polygon"], 0.7), _at_z(PRIMS["circle"][1], 0.7))),
+        ("polygon-circle@z0.7", _c("difference", _at_z(P["polygon"], 0.7), _at_z(circ1, 0.7))),
         ("polygon@z0.7-polyline", _c("difference", _at_z(P["polygon"], 0.7), P["polyline"])),
     ]
     cases += comps
@@ -1495,6 +1567,8 @@ PS_A = [
     (1.3, 1.6, 0.0),
     (0.35, 1.9, 0.0),
 ]
+# for intersections / differences with the grid: grid points, obstacle cells, outside
+PS_G = [(0.13, 0.07, 0.0), (0.93, 0.97, 0.0), (1.0, 0.1, 0.0), (1.75, 1.0, 0.0), (5.0, 5.0, 0.0), (-1.0, 0.3, 0.0), (2.53, 1.87, 0.0)]
 PS_B = [(1.0, 1.1, 0.0), (1.9, 0.8, 0.0), (3.3, 0.2, 0.0), (0.9, 1.2, 0.6), (-2.0, 1.0, 0.0)]
 GRID = dict(k="grid", grid=[[0, 1, 0, 0], [0, 0, 1, 0], [1, 0, 0, 0]], Ax=0.8, Ay=0.9, Bx=0.13, By=0.07)
 
@@ -1519,13 +1593,13 @@ def discrete_cases(tier):
                 cases.append((f"grid-{kind}#{i}", _c("difference", GRID, sp)))
     cases += [
         ("pointset&pointset", _c("intersect", ps, pb)),
-        ("pointset&grid", _c("intersect", ps, GRID)),
-        ("grid&pointset", _c("intersect", GRID, ps)),
+        ("pointset&grid", _c("intersect", dict(k="pointset", pts=PS_G), GRID)),
+        ("grid&pointset", _c("intersect", GRID, dict(k="pointset", pts=PS_G))),
         ("pointset|pointset", _c("union", ps, pb)),
         ("pointset|grid", _c("union", ps, GRID)),
         ("grid|pointset", _c("union", GRID, pb)),
         ("pointset-pointset", _c("difference", ps, pb)),
-        ("pointset-grid", _c("difference", ps, GRID)),
+        ("pointset-grid", _c("difference", dict(k="pointset", pts=PS_G), GRID)),
         ("grid-pointset", _c("difference", GRID, dict(k="pointset", pts=[(0.13, 0.07, 0.0), (0.93, 0.97, 0.0), (7, 7, 0)]))),
         ("pointset&boxsurf", _c("intersect", dict(k="pointset", pts=[(0.5, 0.7, 1.25), (2.0, 1.3, 0.4), (1.0, 1.0, 0.5), (1.2, -0.5, 0.1), (1.1, 0.9, 1.0), (3.0, 1.0, 0.5)]), PRIMS["lsurf"][1])),
         ("pointset&polygon@z0.6", _c("intersect", ps, others["multipolygon@z0.6"])),
@@ -1535,9 +1609,10 @@ def discrete_cases(tier):
 
 def _run_item(item):
     mode, name, spec, tier = item
-    t0 = time.time()
+    t0, c0 = time.time(), time.process_time()
     r = run_discrete((name, spec, tier)) if mode == "discrete" else run_continuous((name, spec, tier))
     r["wall"] = round(time.time() - t0, 2)
+    r["cpu"] = round(time.process_time() - c0, 2)
     r["mode"] = mode
     return r
 
